@@ -662,4 +662,89 @@ func DeleteMulti
       invariant[input]    forall o int64 :: has(offsets, o) <==> old(has(offsets, o))
       invariant[stilllive] (forall o int64 :: had(offsets, o) ==> old(gLive[l][o])) ==> (forall o int64 :: has(remainingOffsets, o) ==> gLive[l][o] || gDeleted[l][o])
 
+
+func DeleteMultiOffsets
+    flags noframe
+    requires absWf(l)
+    assigns gLive, gCount, gTotal, gDeleted
+    ensures[wf]       absWf(l) && gNext[l] == old(gNext[l])
+    ensures[nonnil]   ret0 != nil
+    ensures[reported] forall o int64 :: has(ret0, o) ==> had(offsets, o) && old(gLive)[l][o] && !gLive[l][o]
+    ensures[only]     forall o int64 :: old(gLive[l][o]) && !gLive[l][o] ==> has(ret0, o)
+    ensures[keeps]    forall o int64 :: gLive[l][o] ==> old(gLive[l][o])
+    ensures[all]      err == nil && (forall o int64 :: had(offsets, o) ==> old(gLive[l][o])) ==> forall o int64 :: had(offsets, o) ==> !gLive[l][o]
+    loop 1
+      invariant[wf]       absWf(l) && gNext[l] == old(gNext[l]) && deletedOffsets != nil && deletedOffsets != offsets && deletedOffsets != remainingOffsets
+                          && (offsets == nil || remainingOffsets != offsets)
+      invariant[remaining] forall o int64 :: has(remainingOffsets, o) ==> had(offsets, o)
+      invariant[pending]  forall o int64 :: had(offsets, o) && !has(remainingOffsets, o) ==> !gLive[l][o]
+      invariant[liveleft] (forall o int64 :: had(offsets, o) ==> old(gLive[l][o])) ==> (forall o int64 :: has(remainingOffsets, o) ==> gLive[l][o])
+      invariant[reported] forall o int64 :: has(deletedOffsets, o) ==> had(offsets, o) && old(gLive)[l][o] && !gLive[l][o]
+      invariant[only]     forall o int64 :: old(gLive[l][o]) && !gLive[l][o] ==> has(deletedOffsets, o)
+      invariant[keeps]    forall o int64 :: gLive[l][o] ==> old(gLive[l][o])
+    loop 2
+      invariant[idx]      -1 <= rangeindex && rangeindex < len(deleted) && remainingOffsets != nil && remainingOffsets != offsets
+                          && deletedOffsets != nil && deletedOffsets != offsets && deletedOffsets != remainingOffsets
+      invariant[sub]      forall o int64 :: has(remainingOffsets, o) ==> had(offsets, o)
+      invariant[removed]  forall j :: 0 <= j && j <= rangeindex ==> !has(remainingOffsets, deleted[j].Offset) && has(deletedOffsets, deleted[j].Offset)
+      invariant[rest]     forall o int64 :: had(offsets, o) && !has(remainingOffsets, o) ==> !gLive[l][o]
+      invariant[liveleft] forall o int64 :: has(remainingOffsets, o) && gDeleted[l][o] ==> (exists j :: rangeindex < j && j < len(deleted) && deleted[j].Offset == o)
+      invariant[stilllive] (forall o int64 :: had(offsets, o) ==> old(gLive[l][o])) ==> (forall o int64 :: has(remainingOffsets, o) ==> gLive[l][o] || gDeleted[l][o])
+      invariant[reported] forall o int64 :: has(deletedOffsets, o) ==> had(offsets, o) && old(gLive)[l][o] && !gLive[l][o]
+      invariant[only]     forall o int64 :: old(gLive[l][o]) && !gLive[l][o] && !gDeleted[l][o] ==> has(deletedOffsets, o)
+
+// ---------------------------------------------------------------- (*log).Delete entry guards (C12, C19)
+
+func (*log).findDeleteReader
+    requires logWf(l)
+    ensures[relative] (len(offsets) == 0 || (exists o int64 :: has(offsets, o) && o < 0)) ==> err == errDeleteRelative
+    // the target is the segment holding the lowest requested offset
+    ensures[target]   err == nil ==> (exists i :: 0 <= i && i < len(l.readers) && ret0 == l.readers[i]
+                          && (forall o int64 :: has(offsets, o) ==> l.readers[i].segment.Offset <= o)
+                          && (exists m int64 :: has(offsets, m) && (forall o int64 :: has(offsets, o) ==> m <= o)
+                                 && (i == len(l.readers)-1 || m < l.readers[i+1].segment.Offset)))
+
+
+// ================================================================ compaction (C16)
+
+// offset o has been scanned: live and below the cursor bound b
+pred scanned(l Log, o int64, b int64) := gLive[l][o] && o < b
+
+// K(k): the offset the key tree stores under key k
+pred keyOff(t art.Tree, k bseq) := tVal[t][k].(int64)
+
+// the key tree maps every scanned key to the GREATEST scanned offset with that key
+pred treeLast(l Log, t art.Tree, b int64) :=
+    (forall o int64 :: scanned(l, o, b) ==> tHas[t][gKey[l][o]] && typeis(tVal[t][gKey[l][o]], int64) && keyOff(t, gKey[l][o]) >= o)
+    && (forall k bseq :: tHas[t][k] ==> typeis(tVal[t][k], int64) && scanned(l, keyOff(t, k), b) && gKey[l][keyOff(t, k)] == k)
+
+// selected = scanned and not the last scanned message of its key
+pred updatesSel(l Log, t art.Tree, s map[int64]struct{}, b int64) :=
+    forall o int64 :: has(s, o) <==> scanned(l, o, b) && o < keyOff(t, gKey[l][o])
+
+func FindUpdates
+    requires absWf(l)
+    assigns tHas, tVal
+    ensures[live]     err == nil ==> ret0 != nil && (forall o int64 :: has(ret0, o) ==> gLive[l][o])
+    // only messages not newer than the cut-off ...
+    ensures[notnewer] err == nil ==> forall o int64 :: has(ret0, o) ==> gMicro[l][o] <= micro(before)
+    // ... that have a LATER live message with the same key (so the last message of a key is never selected)
+    ensures[haslater] err == nil ==> forall o int64 :: has(ret0, o) ==>
+                          (exists p int64 :: gLive[l][p] && o < p && gKey[l][p] == gKey[l][o] && gMicro[l][p] <= micro(before))
+    // with non-decreasing times: among messages older than the cut-off at most the last of each key remains
+    ensures[complete] err == nil && absMono(l) ==> forall o int64, p int64 ::
+                          gLive[l][o] && gLive[l][p] && o < p && gKey[l][o] == gKey[l][p] && gMicro[l][p] < micro(before) ==> has(ret0, o)
+    loop 1
+      invariant[nonnil]  offsets != nil && maxOffset == gNext[l] && keyOffset != nil
+      invariant[cursor]  offset == message.OffsetOldest || offset >= 0
+      invariant[notnewer] forall o int64 :: scanned(l, o, ite(offset == message.OffsetOldest, 0, offset)) ==> gMicro[l][o] <= micro(before)
+      invariant[tree]    treeLast(l, keyOffset, ite(offset == message.OffsetOldest, 0, offset))
+      invariant[sel]     updatesSel(l, keyOffset, offsets, ite(offset == message.OffsetOldest, 0, offset))
+    loop 2
+      invariant[idx]     -1 <= rangeindex && rangeindex < len(msgs)
+      invariant[nonnil]  offsets != nil && keyOffset != nil
+      invariant[notnewer] forall o int64 :: scanned(l, o, ite(rangeindex + 1 < len(msgs), msgs[rangeindex+1].Offset, offset)) ==> gMicro[l][o] <= micro(before)
+      invariant[tree]    treeLast(l, keyOffset, ite(rangeindex + 1 < len(msgs), msgs[rangeindex+1].Offset, offset))
+      invariant[sel]     updatesSel(l, keyOffset, offsets, ite(rangeindex + 1 < len(msgs), msgs[rangeindex+1].Offset, offset))
+
 @*/
